@@ -98,13 +98,14 @@ def step (_ : Unit) (line : String) : Unit × String :=
   | "reset" :: _ => ((), "ok")
   | "mvb" :: name :: feats => ((), mvb name feats)
   | ["paddr", h, b, c] =>
-    match unhexStr h with
+    -- bytes, not code points: Go's `len(address)` and the ASCII regular expression work on bytes
+    match (unhex h).map (fun bs => String.ofList (bs.map Char.ofNat)) with
     | some s =>
       ((), match parseAddress (fun _ => b == "1") (fun _ => c == "1") s.toList with
         | .ok false => "bech32" | .ok true => "evm" | .error _ => "err")
     | none => ((), "bad-op")
   | ["ethaddr", h, c] =>
-    match unhexStr h with
+    match (unhex h).map (fun bs => String.ofList (bs.map Char.ofNat)) with
     | some s =>
       ((), match validateEthereumAddress (fun _ => c == "1") s.toList with
         | .ok () => "ok" | .error .empty => "empty" | .error .wrongLength => "wrong-length"
